@@ -460,7 +460,6 @@ def run(sc, linger=None, shutdown_again=True):
         return res, list(LOG)
     finally:
         STATE["active"] = False
-        sys.stdout = so
         time.time = rt
         asyncio.wait = _orig_wait
         asyncio.Queue = asyncio.queues.Queue
@@ -492,4 +491,5 @@ def run(sc, linger=None, shutdown_again=True):
             loop.close()
         except BaseException:                               # noqa
             pass
+        sys.stdout = so
         asyncio.set_event_loop(None)
